@@ -29,7 +29,10 @@ def cfg(n, side, d2s, mode, invs=L1_INVS):
 
 
 # ---- shared: build a particle table ------------------------------------------------------------------
-def make_motl(positions, groups, scores, field, rng, ids=None):
+TAG = "geom4"        # a field the operation does not read: the harness identifies rows by it, not by subtomo_id
+
+
+def make_motl(positions, groups, scores, field, rng, ids=None, sid_mode=0):
     from cryocat import cryomotl
     n = len(positions)
     cols = motlutil.empty_rows(n)
@@ -39,18 +42,23 @@ def make_motl(positions, groups, scores, field, rng, ids=None):
     xyz = pos - shift
     cols["x"], cols["y"], cols["z"] = xyz[:, 0], xyz[:, 1], xyz[:, 2]
     cols["shift_x"], cols["shift_y"], cols["shift_z"] = shift[:, 0], shift[:, 1], shift[:, 2]
-    cols["subtomo_id"] = np.asarray(ids if ids is not None else np.arange(1, n + 1), dtype=float)
+    tags = np.asarray(ids if ids is not None else np.arange(1, n + 1), dtype=float)
+    cols[TAG] = tags
+    # the property identifies particles by row, never by subtomo_id: the numbering may restart in every tomogram
+    # (as peak extraction produces it) or be unset (all 0), so that ids repeat inside one group
+    cols["subtomo_id"] = tags if sid_mode == 0 else (np.zeros(n) if sid_mode == 1 else np.arange(n) % 3 + 1.0)
     for f in GROUP_FIELDS:
         cols[f] = np.ones(n)
     cols[field] = np.asarray(groups, dtype=float)
     # the list may be a sorted / sampled / filtered table: its row labels need not be 0..N-1
-    return cryomotl.Motl(motlutil.vary_index(motlutil.df_from_cols(cols), rng.randrange(1000))), cols
+    k = rng.randrange(1000)
+    return cryomotl.Motl(motlutil.vary_columns(motlutil.vary_index(motlutil.df_from_cols(cols), k), k // 8)), cols
 
 
 def run_clean(motl, cols, metric, scores, d, field, keep_greater):
     motl.df[metric] = np.asarray(scores, dtype=float)
     motl.clean_by_distance(d, field, metric_id=metric, keep_greater=keep_greater)
-    return motl.df["subtomo_id"].to_numpy(dtype=float).tolist()
+    return motl.df[TAG].to_numpy(dtype=float).tolist()
 
 
 # ---- L2: exact cases -------------------------------------------------------------------------------
@@ -73,7 +81,7 @@ def exact_clean(ctx, rec, variant):
     ids = [i + 1 for i in order]
     case = {"kind": "exact_clean", "rec": rec, "variant": variant}
     sig = {"op": "clean_by_distance", "layer": "L2"}
-    motl, cols = make_motl(pos, [groups[i] for i in order], None, field, rng, ids=ids)
+    motl, cols = make_motl(pos, [groups[i] for i in order], None, field, rng, ids=ids, sid_mode=(variant // 4) % 3)
     out, err = core.call_guarded(run_clean, motl, cols, metric, [base[i] for i in order], math.sqrt(rec["d2"]), field,
                                  keep_greater)
     ctx.ran(case)
@@ -188,7 +196,7 @@ def exec_clean_case(ctx, case):
     dense = {v: k + 1 for k, v in enumerate(distinct)}
     rank = [dense[v] for v in sc]            # equal metric values share a rank
     ids = rng.sample(range(1, 10 * n + 10), n)
-    motl, cols = make_motl(pos, case["groups"], None, case["field"], rng, ids=ids)
+    motl, cols = make_motl(pos, case["groups"], None, case["field"], rng, ids=ids, sid_mode=case["seed"] % 3)
     out, err = core.call_guarded(run_clean, motl, cols, case["metric"], sc, case["d"], case["field"], case["keep_greater"])
     ctx.ran(case, nontrivial=n > 1)
     sig = {"op": "clean_by_distance", "layer": "L3"}
